@@ -6,7 +6,7 @@
     the set a handshake must be answered from is computed by [last_good] / the abstract
     machine, never by the model of the loop or of the index). *)
 From Coq Require Import String List NArith Bool.
-From Fabio Require Import Lib.Outcome Lib.Bytes Lib.Verdict Model.CertStore Proofs.CertStore.
+From Fabio Require Import Lib.Outcome Lib.Bytes Lib.Verdict Model.CertStore Proofs.CertStore Model.CertDeploy Proofs.CertDeploy.
 Import ListNotations.
 Local Open Scope N_scope.
 
@@ -96,7 +96,16 @@ Inductive case :=
 (* sets of whole certificates (names, leaf identity, identity of chain + staple) sent one
    after the other through the real TLSConfig, a handshake after each: what GetCertificate
    returned, position by leaf in the set just sent (1000: not in it) and the value's content *)
-| CMaterial (sets : list fset) (sn : str) (strict : bool) (impl : list presented).
+| CMaterial (sets : list fset) (sn : str) (strict : bool) (impl : list presented)
+(* the listeners of a configuration (the ui listener, then the proxy listeners in order), the
+   real makeTLSConfig called for each as main() does, the certificate sources by name with
+   what their directories hold: for one server name, what GetCertificate of each listener's
+   tls.Config answered (None: makeTLSConfig returned no tls.Config) *)
+| CListeners (ls : list listener) (srcs : sources) (sn : str) (impl : list (option pick))
+(* a certificate directory behind the real PathSource going through a history of states, each
+   described by what Lstat and a read of every entry yield: the names of the leaf a handshake
+   was given after each state *)
+| CDir (states : list dirstate) (sn : str) (strict : bool) (impl : list seen).
 
 (* the property's demand on what a handshake is given after [set] was published: the names
    say which position(s) may answer, and the value given is the set's own at that position *)
@@ -107,6 +116,17 @@ Definition present_ok (set : fset) (sn : str) (strict : bool) (p : presented) : 
      | ROutside _ => false
      | _ => true
      end.
+
+(* the same demand on an answer reported by the names of the leaf: some position that holds
+   these names is one the property allows *)
+Definition seen_ok (set : certset) (sn : str) (strict : bool) (x : seen) : bool :=
+  match x with
+  | SCert c => existsb (fun i => cert_eqb (nth i set []) c && pick_ok set sn strict (PCert i)) (seq 0 (length set))
+  | SNone => pick_ok set sn strict PNone
+  | SErrNoCerts => pick_ok set sn strict PErrNoCerts
+  | SOutside _ => false
+  end.
+Definition is_some {A} (o : option A) : bool := match o with Some _ => true | None => false end.
 
 Definition unusable_b (l : load) : bool := match usable l with None => true | Some _ => false end.
 
@@ -167,5 +187,24 @@ Definition check_case (c : case) : N :=
       let same := list_eqb presented_eqb impl m in
       let spec := all2 (fun s p => present_ok s sn strict p) sets impl in
       let nontriv := match m with p :: r => existsb (fun q => negb (presented_eqb p q)) r | [] => false end in
+      verdict same spec None nontriv
+  | CListeners ls srcs sn impl =>
+      let m := listener_answers srcs ls sn in
+      let same := list_eqb (opt_eqb pick_eqb) impl m in
+      (* each listener by itself: no tls.Config without a certificate source; else an answer
+         the property allows for the set of ITS source under ITS strictmatch *)
+      let spec := all2 (fun l o => match l_cs l, o with
+                                   | [], None => true
+                                   | _ :: _, Some p => pick_ok (last_good [] (history_of srcs (l_cs l))) sn (l_strict l) p
+                                   | _, _ => false
+                                   end) ls impl in
+      let nontriv := existsb (fun a => existsb (fun b => is_some a && is_some b && negb (opt_eqb pick_eqb a b)) m) m in
+      verdict same spec None nontriv
+  | CDir states sn strict impl =>
+      let m := run_store_seen [] (e2e_actions watch_step false None (map dir_load states) sn strict) in
+      let same := list_eqb seen_eqb impl m in
+      let spec := all2 (fun k x => seen_ok (last_good [] (firstn (S k) (map dir_view states))) sn strict x)
+                       (seq 0 (length states)) impl in
+      let nontriv := match m with p :: r => existsb (fun q => negb (seen_eqb p q)) r | [] => false end in
       verdict same spec None nontriv
   end.
